@@ -115,6 +115,8 @@ func C16(r *eng.Run) {
 		C16Handshake(r)
 	case 5:
 		C16Control(r)
+	case 9:
+		C16Flate(r)
 	default:
 		C16Read(r)
 	}
